@@ -80,8 +80,14 @@ void h_c04_read_input(void)
                         char c;
                         if(j == 0){ c = (char)kv_first[i]; }
                         else{
+#ifdef KV_CONCRETE_BYTES
+                                /* concrete bytes: with symbolic bytes the residue counts are symbolic, every append may re-allocate
+                                   (phantom paths through the realloc stub) and the query does not finish in 15 min */
+                                c = "Ac-N"[(i + j) % 4];
+#else
                                 int b0 = kv_in_int() != 0, b1 = kv_in_int() != 0;
                                 c = b0 ? (b1 ? '-' : 'A') : (b1 ? 'c' : 'N');
+#endif
                         }
                         lines[i][j] = c;
                 }
